@@ -17,7 +17,7 @@ META = {
     "note": "Assumed: POSIX semantics of the external calls (rename atomic; chmod/stat/open as modelled; removing our own temporary file does not fail), a pre-existing user file named <name>.tmp is out of scope, text-mode newline translation is not modelled. 'A file that fails to parse or configure is never modified' is checked through the real apply_rules as a bounded stand-in here (its control flow is not under contract yet). Trusted: pyvc, SMT solvers.",
 }
 
-QUALS = ["vsg.apply_rules.write_vhdl_file", "vsg.apply_rules.create_backup_file"]
+QUALS = ["vsg.apply_rules.write_vhdl_file", "vsg.apply_rules.create_backup_file", "vsg.apply_rules.apply_rules", "vsg.rule_list.rule_list.fix", "vsg.rule.Rule.fix"]
 
 BAD_VHDL = "entity e is\n  port (a : in std_logic\nend entity e;\narchitecture a of e is begin end;;\n"
 OK_VHDL = "entity E is\nend entity E;\n"
@@ -84,6 +84,6 @@ def run():
             f.found_input = True
             f.witness = "%s/%s/%o" % bad[0][0]
     if c.tier == "thorough":
-        run_selftest(c, ["mutants_writeback.py"], lambda eng: QUALS)
+        run_selftest(c, ["mutants_writeback.py", "mutants_applyrules.py"], lambda eng: QUALS[:3])
     c.trusted += ["assumed contract: %s — %s" % (q, ct["trusted"]) for q, ct in sorted(c.engine.contracts.items()) if ct.get("trusted") and (q.startswith("os.") or q.startswith("builtins.") or q.startswith("shutil."))]
     return c.finish({"explanation": "write_vhdl_file and create_backup_file fully discharged (283+ obligations incl. one crash-point obligation per statement and exceptional edge); fault enumeration is model validation and replay"})
